@@ -35,7 +35,7 @@ func nasties(thorough bool) []nasty {
 	// the tier's budget; the 10k-deep documents go to the entry points that take an UNVALIDATED AST.
 	deep, wide, conflicting := 150, 1000, 60
 	if thorough {
-		deep, wide, conflicting = 400, 10000, 400
+		deep, wide, conflicting = 400, 3000, 250
 	}
 	huge := 10000
 	hugeLit := 3000 // nesting of literals / types / variable values handed to the unvalidated entry points (quick)
@@ -120,6 +120,8 @@ func nasties(thorough bool) []nasty {
 		nasty{name: "10k-deep-object-literal", big: true, only: unvalidated, src: "{ b(x1: " + strings.Repeat("{a:", hugeLit) + "null" + strings.Repeat("}", hugeLit) + ") a { id } }"},
 		nasty{name: "10k-deep-list-type", big: true, only: unvalidated, src: "query($a: " + strings.Repeat("[", hugeLit) + "Int" + strings.Repeat("]", hugeLit) + ") { b(a: $a) }", vars: `{"a": 1}`},
 		nasty{name: "deep-variable-value-unvalidated", big: true, only: unvalidated, src: `query($c: input, $f: [[Int]]) { b(x1: $c) enum(a: $f) }`, vars: `{"c": ` + strings.Repeat(`{"a":`, hugeVar) + `null` + strings.Repeat(`}`, hugeVar) + `, "f": ` + deepList(hugeLit) + `}`},
+		nasty{name: "10k-wide-distinct", big: true, only: unvalidated, src: "{ " + repeat(huge, func(i int) string { return fmt.Sprintf("k%d: b ", i) }) + "}"},
+		nasty{name: "10k-wide-same-key", big: true, only: unvalidated, src: "{ " + repeat(huge, func(i int) string { return "b " }) + "}"},
 		nasty{name: "wide-distinct", big: true, src: "{ " + repeat(wide, func(i int) string { return fmt.Sprintf("k%d: b ", i) }) + "}"},
 		nasty{name: "wide-same-key", big: true, src: "{ " + repeat(wide/2, func(i int) string { return "b " }) + "}"},
 		nasty{name: "wide-same-key-conflicting", big: true, src: "{ " + repeat(conflicting, func(i int) string { return fmt.Sprintf("k: b(a: %d) ", i) }) + "}"},
